@@ -128,6 +128,32 @@ def check(sh, doc, sseed, suite):
             sh.violation('flip', 'flip:changes-property-free-rendering', 'flag changes the rendering of a property-free database', case)
     except Exception as e:  # noqa
         sh.violation('flip', f'flip:raises:{type(e).__name__}', str(e), case)
+    # ---------------- a table that moves to another database follows the flag of its new owner
+    if withp and on.tables:
+        try:
+            from pydbml import Database
+            t0 = on.tables[0]
+            keys0 = list(t0.properties) + [k_ for c_ in t0.columns for k_ in c_.properties]
+            if keys0 and all(t0 is not r_.table1 and t0 is not r_.table2 for r_ in on.refs):
+                on.delete(t0)
+                other = Database(allow_properties=False)
+                other.add(t0)
+                d_moved = other.dbml
+                sh.count('obs.moved_tables')
+                if any(k_ in d_moved for k_ in keys0):
+                    sh.violation('flip', 'moved:properties-rendered-in-a-database-with-the-flag-off',
+                                 f'table moved from a database with the flag on to one with the flag off still renders {[k_ for k_ in keys0 if k_ in d_moved][:3]}', case)
+                other.allow_properties = True
+                d_moved = other.dbml
+                if not all(k_ in d_moved for k_ in keys0):
+                    sh.violation('flip', 'moved:properties-missing-after-enabling-the-new-owner', 'keys absent after the new owner enabled the flag', case)
+                third = Database(allow_properties=False)
+                other.delete(t0)
+                third.add(t0)
+                if any(k_ in third.dbml for k_ in keys0):
+                    sh.violation('flip', 'moved:properties-rendered-in-a-database-with-the-flag-off', 'second move: keys rendered although the owner has the flag off', case)
+        except Exception as e:  # noqa
+            sh.violation('flip', f'moved:raises:{type(e).__name__}', str(e), case)
     # ---------------- option off
     if withp:
         if err_off is None:
@@ -178,10 +204,11 @@ def prop_product(rng):
             for ordinary in range(3):
                 doc = am.Doc(allow_properties=True)
                 t = am.Table(rng.choice(['public', nm('s')]), nm('t'))
-                t.props = [(nm('pk'), tx.line('pv')) for _ in range(nt)]
+                kwv = ['true', 'false', 'null', 'NULL', 'True', '42', '4.5', '0', '', ' ', 'pk', 'not null', "note: 'x'"]
+                t.props = [(nm('pk'), tx.line('pv') if rng.random() > 0.25 else rng.choice(kwv)) for _ in range(nt)]
                 t.note = tx.note('tn') if rng.random() < 0.5 else None
                 c = am.Column(nm('c'), am.ColType('plain', 'int'))
-                c.props = [(nm('ck'), tx.line('cv')) for _ in range(nc)]
+                c.props = [(nm('ck'), tx.line('cv') if rng.random() > 0.25 else rng.choice(kwv)) for _ in range(nc)]
                 if ordinary >= 1:
                     c.pk = True
                 if ordinary >= 2:
